@@ -24,7 +24,7 @@ META = {
         "Distinct = distinct (basis, op list)."
     ),
     "assumptions": [
-        "model: ref.av filters all of S_n with the reference (mesh) containment; n <= 7 (8 thorough) classical, <= 6 mesh",
+        "model: ref.av filters all of S_n with the reference (mesh) containment; n <= 7 (8 thorough) classical, <= 5 mesh; long_levels: incremental oracle (new maximum inserted, only new occurrences tested) up to length 9 (11 thorough), cross-checked against the filter oracle in the self-test",
         "order inside a level is not part of the property; only the set, multiplicity and length order are compared",
         "is_subclass truth: classical = basis containment theorem; with a mesh basis = bounded comparison up to the length bound (only a found counter-example refutes)",
     ],
@@ -36,6 +36,10 @@ NMAX_MESH = 5
 
 
 def selftest():
+    for b in ([(0, 2, 1)], [(0, 1, 2), (2, 1, 0, 3)], [(1, 3, 0, 2), (2, 0, 3, 1)], [(0,)], [(1, 0), (0, 1, 2)]):
+        for n in range(7):
+            if ref.av_incremental(b, n) != sorted(ref.av(b, n)):
+                raise engine.HarnessError(f"incremental oracle disagrees with the filter oracle on {b} at {n}")
     if [len(ref.av([(0, 2, 1)], n)) for n in range(7)] != [1, 1, 2, 5, 14, 42, 132]:
         raise engine.HarnessError("ref.av Catalan self-test failed")
     if [len(ref.av([((0,), frozenset({(0, 0), (0, 1), (1, 0), (1, 1)}))], n)) for n in range(4)] != [1, 0, 2, 6]:
@@ -438,7 +442,25 @@ def check_orders(case):
     return out
 
 
-CHECKS = {"history": check_history, "orders": check_orders}
+def check_long_levels(case):
+    """Classical classes far beyond the brute-force bound: counts, levels and membership up to
+    length n against the incremental oracle (insert the new maximum, test only new occurrences)."""
+    basis, n = [tuple(b) for b in case["basis"]], case["n"]
+    Av.clear_cache()
+    av = Av([Perm(b) for b in basis])
+    order = case.get("order", list(range(n, -1, -1)))
+    for m in order:
+        want = ref.av_incremental(basis, m)
+        if av.count(m) != len(want):
+            return BAD("long_count", {"n": m, "got": av.count(m), "want": len(want)})
+        if m == n or m % 3 == 0:
+            got = sorted(tuple(p) for p in av.of_length(m))
+            if got != want:
+                return BAD("long_level", {"n": m, "missing": [list(t) for t in sorted(set(want) - set(got))[:3]], "extra": [list(t) for t in sorted(set(got) - set(want))[:3]]})
+    return OK(n >= 8, f"long_levels_n{n}")
+
+
+CHECKS = {"history": check_history, "orders": check_orders, "long_levels": check_long_levels}
 
 
 # ------------------------------------------------------------------ generators
@@ -627,7 +649,29 @@ def shard_orders(acc, shard, nshards, max_len, max_size, top):
             i += 1
 
 
+@st.composite
+def long_cases(draw, nmax):
+    """slowly growing classical classes: a pattern of length 3 plus others, or two of length 4"""
+    if draw(st.booleans()):
+        basis = [list(draw(gen.perm_of(3)))] + [list(p) for p in draw(st.lists(gen.perms(3, 5), max_size=2))]
+    else:
+        basis = [list(draw(gen.perm_of(4))), list(draw(gen.perm_of(4)))] + [list(p) for p in draw(st.lists(gen.perms(4, 5), max_size=1))]
+    n = draw(st.integers(8, nmax))
+    order = list(range(n + 1))
+    kind = draw(st.sampled_from(["down", "up", "mixed"]))
+    if kind == "down":
+        order.reverse()
+    elif kind == "mixed":
+        order = list(draw(st.permutations(order)))
+    return {"basis": basis, "n": n, "order": order}
+
+
+def shard_long(acc, shard, nshards, n_cases, nmax):
+    engine.hyp_run(acc, "long_levels", check_long_levels, long_cases(nmax), n_cases, shard)
+
+
 def run(acc, tier):
+    engine.pmap(acc, shard_long, extra=((4, 9) if tier == "quick" else (40, 11)))
     if tier == "quick":
         engine.pmap(acc, shard_orders, extra=(3, 3, 6))
         engine.pmap(acc, shard_histories, extra=(60, 15))
